@@ -843,3 +843,313 @@ Proof.
   induction h as [|[o f] h IH]; intros fs HI; cbn; [exact HI|].
   apply IH. destruct (op_enabled r fs o) eqn:En; [apply HInv_step; assumption|exact HI].
 Qed.
+
+(* ---------------------------------------------------------------------- *)
+(* Part C: the codec                                                       *)
+(* ---------------------------------------------------------------------- *)
+Lemma wrap16_id z : is_i16 z -> wrap16 z = z.
+Proof. unfold is_i16, wrap16. intros H. rewrite Z.mod_small; lia. Qed.
+
+Lemma wrap16_range z : is_i16 (wrap16 z).
+Proof. unfold is_i16, wrap16. pose proof (Z.mod_pos_bound (z + 32768) 65536 ltac:(lia)). lia. Qed.
+
+Lemma wrap16_undo prev x : is_i16 x -> wrap16 (prev + wrap16 (x - prev)) = x.
+Proof.
+  intros Hx. unfold wrap16 at 1 2.
+  replace (prev + ((x - prev + 32768) mod 65536 - 32768) + 32768)
+    with (prev + (x - prev + 32768) mod 65536) by lia.
+  rewrite Zplus_mod_idemp_r.
+  replace (prev + (x - prev + 32768)) with (x + 32768) by lia.
+  unfold is_i16 in Hx. rewrite Z.mod_small; lia.
+Qed.
+
+Lemma cumsum_diff_from l : forall prev, Forall is_i16 l ->
+  cumsum_from prev (diff_from prev l) = l.
+Proof.
+  induction l as [|x l IH]; intros prev Hl; cbn; [reflexivity|].
+  inversion Hl; subst. rewrite wrap16_undo by assumption. f_equal. apply IH. assumption.
+Qed.
+
+Lemma cumsum_diff1 l : Forall is_i16 l -> cumsum1 (diff1 l) = l.
+Proof.
+  destruct l as [|x l]; cbn; [reflexivity|]. intros H. inversion H; subst.
+  f_equal. apply cumsum_diff_from. assumption.
+Qed.
+
+Lemma diff_from_length l : forall prev, length (diff_from prev l) = length l.
+Proof. induction l; intros; cbn; auto. Qed.
+Lemma diff1_length l : length (diff1 l) = length l.
+Proof. destruct l; cbn; auto using diff_from_length. Qed.
+
+Lemma diff_from_i16 l : forall prev, Forall is_i16 (diff_from prev l).
+Proof. induction l; intros; cbn; constructor; auto using wrap16_range. Qed.
+Lemma diff1_i16 l : Forall is_i16 l -> Forall is_i16 (diff1 l).
+Proof. destruct l; cbn; intros H; [constructor|]. inversion H; subst. constructor; auto using diff_from_i16. Qed.
+
+Lemma bytes_roundtrip l : Forall is_i16 l -> from_bytes (to_bytes l) = l.
+Proof.
+  induction 1 as [|x l Hx Hl IH]; cbn [to_bytes from_bytes]; [reflexivity|].
+  rewrite IH. f_equal.
+  pose proof (Z.div_mod (x mod 65536) 256 ltac:(lia)) as E.
+  replace ((x mod 65536) mod 256 + 256 * (x mod 65536 / 256)) with (x mod 65536) by lia.
+  unfold wrap16. rewrite Zplus_mod_idemp_l.
+  unfold is_i16 in Hx. rewrite Z.mod_small; lia.
+Qed.
+
+(* every byte produced is a byte *)
+Lemma to_bytes_range l : Forall (fun b => 0 <= b < 256) (to_bytes l).
+Proof.
+  induction l as [|x l IH]; cbn [to_bytes]; [constructor|].
+  pose proof (Z.mod_pos_bound x 65536 ltac:(lia)).
+  constructor; [apply Z.mod_pos_bound; lia|constructor; [|exact IH]].
+  split; [apply Z.div_pos; lia|apply Z.div_lt_upper_bound; lia].
+Qed.
+
+Lemma pieces_concat (cols : list (list Z)) n :
+  Forall (fun col => length col = n) cols ->
+  pieces (length cols) n (concat cols) = cols.
+Proof.
+  induction 1 as [|col cols Hc Hcs IH]; cbn; [reflexivity|].
+  subst n. rewrite firstn_app, skipn_app, Nat.sub_diag, firstn_all, skipn_all.
+  cbn [firstn skipn app]. rewrite app_nil_r. now rewrite IH.
+Qed.
+
+Lemma nth_seq_id {A} (l : list A) d : map (fun j => nth j l d) (seq 0 (length l)) = l.
+Proof.
+  induction l as [|a l IH]; cbn; [reflexivity|].
+  f_equal. rewrite <- seq_shift, map_map. exact IH.
+Qed.
+
+Lemma column_nth rows j i : nth i (column rows j) 0 = nth j (nth i rows []) 0.
+Proof.
+  unfold column.
+  rewrite <- (map_nth (fun row : list Z => nth j row 0) rows [] i).
+  f_equal. destruct j; reflexivity.
+Qed.
+
+Lemma transpose_involutive nc rows :
+  Forall (fun row => length row = nc) rows ->
+  transpose (length rows) (transpose nc rows) = rows.
+Proof.
+  intros Hr.
+  transitivity (map (fun i => nth i rows []) (seq 0 (length rows))); [|apply nth_seq_id].
+  unfold transpose at 1.
+  apply map_ext_in. intros i Hi. apply in_seq in Hi.
+  unfold column at 1. unfold transpose. rewrite map_map.
+  assert (Hlen : length (nth i rows []) = nc).
+  { rewrite Forall_forall in Hr. apply Hr, nth_In. lia. }
+  transitivity (map (fun j => nth j (nth i rows []) 0) (seq 0 (length (nth i rows []))));
+    [|apply nth_seq_id].
+  rewrite Hlen. apply map_ext. intros j. apply column_nth.
+Qed.
+
+Lemma column_length rows j : length (column rows j) = length rows.
+Proof. unfold column. apply map_length. Qed.
+
+Lemma column_i16 nc rows j : rect nc rows -> Forall is_i16 (column rows j).
+Proof.
+  unfold rect, column. intros H. apply Forall_forall. intros x Hx.
+  apply in_map_iff in Hx. destruct Hx as [row [<- Hrow]].
+  rewrite Forall_forall in H. destruct (H row Hrow) as [_ Hi].
+  destruct (Nat.lt_ge_cases j (length row)) as [Hj|Hj].
+  - rewrite Forall_forall in Hi. apply Hi, nth_In, Hj.
+  - rewrite nth_overflow by lia. unfold is_i16. lia.
+Qed.
+
+Lemma rect_lengths nc rows : rect nc rows -> Forall (fun row => length row = nc) rows.
+Proof. unfold rect. apply Forall_impl. intros a [H _]. exact H. Qed.
+
+(* one chunk *)
+Lemma payload_roundtrip nc rows :
+  rect nc rows -> decode_payload (length rows) nc (payload nc rows) = rows.
+Proof.
+  intros Hr. unfold decode_payload, payload.
+  set (cols := transpose nc rows).
+  assert (Hci : Forall (Forall is_i16) cols).
+  { unfold cols, transpose. apply Forall_forall. intros col Hc.
+    apply in_map_iff in Hc. destruct Hc as [j [<- _]]. eapply column_i16; eauto. }
+  assert (Hcl : Forall (fun col => length col = length rows) cols).
+  { unfold cols, transpose. apply Forall_forall. intros col Hc.
+    apply in_map_iff in Hc. destruct Hc as [j [<- _]]. apply column_length. }
+  rewrite bytes_roundtrip.
+  2:{ apply Forall_concat. apply Forall_forall. intros d Hd.
+      apply in_map_iff in Hd. destruct Hd as [col [<- Hc]].
+      apply diff1_i16. rewrite Forall_forall in Hci. auto. }
+  assert (Hnc : length (map diff1 cols) = nc).
+  { unfold cols, transpose. now rewrite !map_length, seq_length. }
+  rewrite <- Hnc. rewrite pieces_concat.
+  2:{ apply Forall_forall. intros d Hd. apply in_map_iff in Hd. destruct Hd as [col [<- Hc]].
+      rewrite diff1_length. rewrite Forall_forall in Hcl. auto. }
+  rewrite map_map.
+  replace (map (fun x => cumsum1 (diff1 x)) cols) with cols.
+  2:{ symmetry. rewrite <- (map_id cols) at 2. apply map_ext_in. intros col Hc.
+      apply cumsum_diff1. rewrite Forall_forall in Hci. auto. }
+  apply transpose_involutive, rect_lengths, Hr.
+Qed.
+
+Lemma chunk_roundtrip (zip unzip : list Z -> list Z) nc rows :
+  (forall b, unzip (zip b) = b) -> rect nc rows ->
+  decode_chunk unzip (length rows) nc (encode_chunk zip nc rows) = rows.
+Proof.
+  intros Hz Hr. unfold decode_chunk, encode_chunk. rewrite Hz. apply payload_roundtrip, Hr.
+Qed.
+
+(* whole file *)
+Lemma split_rows_concat fuel : forall size rows, (0 < size)%nat -> (length rows <= fuel)%nat ->
+  concat (split_rows fuel size rows) = rows.
+Proof.
+  induction fuel as [|f IH]; intros size rows Hs Hl; cbn.
+  - destruct rows; [reflexivity|cbn in Hl; lia].
+  - destruct rows as [|a rows]; [reflexivity|].
+    cbn [concat]. rewrite IH; [apply firstn_skipn|exact Hs|].
+    rewrite skipn_length. cbn [length] in *. lia.
+Qed.
+
+Lemma in_firstn {A} n : forall (l : list A) x, In x (firstn n l) -> In x l.
+Proof. induction n; intros [|a l] x; cbn; try tauto. intros [H|H]; auto. Qed.
+Lemma in_skipn {A} n : forall (l : list A) x, In x (skipn n l) -> In x l.
+Proof. induction n; intros [|a l] x; cbn; try tauto. intros H; auto. Qed.
+
+Lemma split_rows_rect fuel nc : forall size rows, rect nc rows ->
+  Forall (rect nc) (split_rows fuel size rows).
+Proof.
+  induction fuel as [|f IH]; intros size rows Hr; cbn; [constructor|].
+  destruct rows as [|a rows]; [constructor|].
+  constructor.
+  - unfold rect in *. apply Forall_forall. intros x Hx. rewrite Forall_forall in Hr.
+    apply Hr. eapply in_firstn, Hx.
+  - apply IH. unfold rect in *. apply Forall_forall. intros x Hx. rewrite Forall_forall in Hr.
+    apply Hr. eapply in_skipn, Hx.
+Qed.
+
+Lemma file_roundtrip (zip unzip : list Z -> list Z) nc size rows :
+  (forall b, unzip (zip b) = b) -> 1 <= size -> rect nc rows ->
+  decode_file unzip nc (encode_file zip nc size rows) = rows.
+Proof.
+  intros Hz Hs Hr. unfold decode_file, encode_file, file_chunks. rewrite map_map. cbn [fst snd].
+  pose proof (split_rows_rect (length rows) nc (Z.to_nat size) rows Hr) as Hc.
+  transitivity (concat (split_rows (length rows) (Z.to_nat size) rows));
+    [|apply split_rows_concat; lia].
+  f_equal. rewrite <- (map_id (split_rows _ _ _)) at 2.
+  apply map_ext_in. intros ch Hch. rewrite Forall_forall in Hc.
+  apply chunk_roundtrip; auto.
+Qed.
+
+(* chunk bounds *)
+Lemma zseq_length a n : length (zseq a n) = n.
+Proof. unfold zseq. now rewrite map_length, seq_length. Qed.
+Lemma zseq_nth a n i : (i < n)%nat -> nth i (zseq a n) 0 = a + Z.of_nat i.
+Proof.
+  intros Hi. unfold zseq.
+  rewrite (nth_indep _ 0 (a + Z.of_nat 0)) by (now rewrite map_length, seq_length).
+  change (a + Z.of_nat 0) with ((fun i => a + Z.of_nat i) 0%nat).
+  rewrite map_nth, seq_nth by exact Hi. reflexivity.
+Qed.
+
+Lemma chunk_bounds_spec n size : 1 <= n -> 1 <= size ->
+  let b := chunk_bounds n size in
+  let m := n_chunks n size in
+  1 <= m /\ Z.of_nat (length b) = m + 1 /\
+  (forall k, 0 <= k < m -> nth (Z.to_nat k) b 0 = k * size) /\
+  nth (Z.to_nat m) b 0 = n /\
+  (m - 1) * size < n <= m * size.
+Proof.
+  intros Hn Hs b m. unfold b, m, chunk_bounds, n_chunks.
+  pose proof (cdiv_spec n size ltac:(lia)) as Hc.
+  pose proof (cdiv_pos n size ltac:(lia) ltac:(lia)) as Hp.
+  set (q := cdiv n size) in *.
+  split; [lia|split; [|split; [|split]]].
+  - rewrite app_length, map_length, zseq_length. cbn. lia.
+  - intros k Hk. rewrite app_nth1 by (rewrite map_length, zseq_length; lia).
+    rewrite (nth_indep _ 0 (0 * size)) by (rewrite map_length, zseq_length; lia).
+    change (0 * size) with ((fun k => k * size) 0).
+    rewrite map_nth, zseq_nth by lia. lia.
+  - rewrite app_nth2 by (rewrite map_length, zseq_length; lia).
+    rewrite map_length, zseq_length. replace (Z.to_nat q - Z.to_nat q)%nat with 0%nat by lia.
+    reflexivity.
+  - exact Hc.
+Qed.
+
+Lemma skipn_add {A} b : forall a (l : list A), skipn a (skipn b l) = skipn (b + a) l.
+Proof. induction b; intros a l; cbn; [reflexivity|]. destruct l; [now rewrite skipn_nil|apply IHb]. Qed.
+
+(* chunk k of the file is rows[k*size : k*size + size] *)
+Lemma split_rows_nth size k : forall fuel rows, (0 < size)%nat -> (length rows <= fuel)%nat ->
+  (k * size < length rows)%nat ->
+  nth k (split_rows fuel size rows) [] = firstn size (skipn (k * size) rows).
+Proof.
+  induction k as [|k IH]; intros fuel rows Hs Hf Hk.
+  - destruct fuel as [|f]; [lia|]. destruct rows as [|a rows]; [cbn in Hk; lia|]. reflexivity.
+  - destruct fuel as [|f]; [lia|]. destruct rows as [|a rows]; [cbn in Hk; lia|].
+    cbn [split_rows nth]. rewrite IH; [|exact Hs| |]; rewrite ?skipn_length.
+    + rewrite skipn_add. f_equal.
+    + cbn [length] in *. lia.
+    + cbn [length Nat.mul] in *. lia.
+Qed.
+
+(* ---------------------------------------------------------------------- *)
+(* Part A continued: the resolved file holds the recording                 *)
+(* ---------------------------------------------------------------------- *)
+Definition holds (r : Z) (fs : fsys) (f : dfile) : Prop :=
+  match f with
+  | DBin => fs PBin = Complete (Orig r)
+  | DCbin => exists c, fs PCbin = Complete (Comp r c) /\ fs PCh = Complete (Hdr r c)
+  end.
+Definition consistent (r : Z) (fs : fsys) : Prop :=
+  (present (fs PBin) = true -> holds r fs DBin) /\
+  (present (fs PCbin) = true -> holds r fs DCbin).
+Definition entry_path (e : entry) : path :=
+  match e with EBin => PBin | ECbin => PCbin | EMeta => PMeta end.
+
+Lemma resolve_same_recording r fs e :
+  consistent r fs ->
+  present (fs PBin) || present (fs PCbin) = true ->
+  present (fs (entry_path e)) = true ->
+  present (fs PMeta) = true ->
+  exists f, resolve (present (fs PBin)) (present (fs PCbin)) e = Some f /\ holds r fs f /\
+    open_outcome (present (fs PBin)) (present (fs PCbin)) (present (fs PMeta)) (present (fs PCh)) e
+      = match f with DBin => OpenedBin | DCbin => OpenedCbin end.
+Proof.
+  intros [Cb Cc] Hd He Hm. unfold open_outcome. rewrite Hm.
+  destruct e; cbn [entry_path resolve] in *.
+  - exists DBin. rewrite He. cbn. auto.
+  - exists DCbin. rewrite He. cbn. destruct (Cc He) as [c [E1 E2]].
+    rewrite E2. cbn. split; [reflexivity|split; [eauto|reflexivity]].
+  - destruct (present (fs PBin)) eqn:Eb.
+    + exists DBin. cbn. rewrite Eb. auto.
+    + cbn in Hd. rewrite Hd. exists DCbin. cbn. rewrite Hd.
+      destruct (Cc Hd) as [c [E1 E2]]. rewrite E2. cbn.
+      split; [reflexivity|split; [eauto|reflexivity]].
+Qed.
+
+(* ---------------------------------------------------------------------- *)
+(* witnesses for what does NOT hold                                        *)
+(* ---------------------------------------------------------------------- *)
+Definition fs_bin_only : fsys :=
+  fun p => match p with PBin => Complete (Orig 1) | PMeta => Complete (MetaOf 1) | _ => Absent end.
+Definition fs_bin_stale : fsys :=
+  fun p => match p with PBin => Complete (Orig 1) | PMeta => Complete (MetaOf 1)
+                   | PCbin => Complete (Comp 1 2) | PCh => Complete (Hdr 1 2) | _ => Absent end.
+Definition fs_cbin_only : fsys :=
+  fun p => match p with PCbin => Complete (Comp 1 1) | PCh => Complete (Hdr 1 1)
+                   | PMeta => Complete (MetaOf 1) | _ => Absent end.
+
+(* a fault while the header is written leaves a truncated x.ch under its final name *)
+Lemma header_partial_witness :
+  let res := exec (compress_steps 1 1 2 1 true true) fs_bin_only (Some 6%nat) in
+  final_oc res = Raised /\ final_fs res PCh = Partial 0 /\ final_fs res PCbin = Absent.
+Proof. vm_compute. auto. Qed.
+
+(* a failed re-compression leaves the old stream next to the new header *)
+Lemma stale_pair_witness :
+  let res := exec (compress_steps 1 1 2 1 true true) fs_bin_stale (Some 7%nat) in
+  final_oc res = Raised /\ final_fs res PCbin = Complete (Comp 1 2) /\
+  final_fs res PCh = Complete (Hdr 1 1) /\ final_fs res PBin = Complete (Orig 1).
+Proof. vm_compute. auto. Qed.
+
+(* decompress_file writes under the final name: a fault leaves a truncated x.bin *)
+Lemma decompress_partial_witness :
+  let res := exec (decompress_steps 1 1 2 1 PBin true true true) fs_cbin_only (Some 5%nat) in
+  final_oc res = Raised /\ final_fs res PBin = Partial 1 /\
+  final_fs res PCbin = Complete (Comp 1 1) /\ final_fs res PCh = Complete (Hdr 1 1).
+Proof. vm_compute. auto. Qed.
